@@ -302,7 +302,7 @@ func (x *g) genObject(depth int, self string) *spec.Type {
 	for i := 0; i < n; i++ {
 		a := x.genAttr(depth, used, self)
 		t.Attrs = append(t.Attrs, a)
-		if !a.HasDef && x.chance(2, 5) {
+		if !a.HasDef && x.chance(2, 5) && !refsSelf(a.Type, self) {
 			t.Required = append(t.Required, a.Name)
 		}
 	}
@@ -316,7 +316,7 @@ func (x *g) genAttr(depth int, used map[string]bool, self string) *spec.Attr {
 	if rt == nil {
 		rt = a.Type
 	}
-	if vp := x.valProb(); x.chance(vp, 10) {
+	if vp := x.valProb(); x.chance(vp, 10) && a.Type.Kind != spec.Ref {
 		a.Val = x.genVal(rt.Kind, a.Type)
 		if a.Val.Empty() {
 			a.Val = nil
@@ -369,7 +369,7 @@ func (x *g) genType(depth int, self string) *spec.Type {
 		return &spec.Type{Kind: spec.Array, Elem: x.genElem(depth+1, self)}
 	case c < 14:
 		kk := []string{spec.String, spec.String, spec.Int, spec.Int32, spec.UInt64, spec.Boolean}[x.r.Intn(6)]
-		if x.o.Profile == "grpc" && kk == spec.Boolean {
+		if (x.o.Profile == "grpc" || x.o.Runtime) && kk == spec.Boolean {
 			kk = spec.String
 		}
 		key := &spec.Attr{Type: &spec.Type{Kind: kk}}
@@ -378,7 +378,7 @@ func (x *g) genType(depth int, self string) *spec.Type {
 		}
 		x.s.AddFeature("map")
 		return &spec.Type{Kind: spec.Map, Key: key, Elem: x.genElem(depth+1, self)}
-	case c < 16 && x.o.Profile != "grpc":
+	case c < 16 && x.o.Profile != "grpc" && !(x.o.Runtime && depth >= 1):
 		x.s.AddFeature("inline-object")
 		return x.genObject(depth+1, self)
 	case c < 19:
@@ -441,7 +441,7 @@ func (x *g) genElem(depth int, self string) *spec.Attr {
 	if rt == nil {
 		rt = e.Type
 	}
-	if x.chance(x.valProb(), 14) && spec.IsPrim(rt.Kind) {
+	if x.chance(x.valProb(), 14) && spec.IsPrim(rt.Kind) && e.Type.Kind != spec.Ref {
 		e.Val = x.genVal(rt.Kind, e.Type)
 		if !e.Val.Empty() {
 			x.s.AddFeature("elem-validation")
@@ -683,4 +683,25 @@ func (x *g) genResultType() *spec.UserType {
 	}
 	// required attributes must be in every view? (not required by goa) - keep as is.
 	return ut
+}
+
+// refsSelf reports whether t refers (directly, or as array element) to the type under construction:
+// such attributes are never required (no finite value would exist).
+func refsSelf(t *spec.Type, self string) bool {
+	if self == "" || t == nil {
+		return false
+	}
+	switch t.Kind {
+	case spec.Ref:
+		return t.Ref == self
+	case spec.Array:
+		return false // an empty array is a finite value
+	case spec.Object:
+		for _, a := range t.Attrs {
+			if t.IsRequired(a.Name) && refsSelf(a.Type, self) {
+				return true
+			}
+		}
+	}
+	return false
 }
